@@ -2,11 +2,12 @@
 import os
 from . import core, eng, gen, tiec, engcheck, tiea
 
-MODULES = ["AscentVerif.Props.C01"]
+MODULES = ["AscentVerif.Props.C01", "AscentVerif.Props.TieD"]
 THEOREMS = ["versionsBase_eq", "versionsBase_covers", "versionsBase_skips_old", "run_sound", "run_complete", "run_eq_leastModel",
             "run_exit_closed", "run_rows_set"]
 TRUSTED = ["Lean 4.33.0 kernel", "axioms: propext, Classical.choice, Quot.sound only (audited per theorem)",
            "statements: Spec/Datalog.lean (Derivable = least model) and Props/C01.lean",
+           "tie D: versions_base is re-translated from ascent_mir.rs on every run (tools/rs2lean.py) and proved equal to Engine.versionsBase for all n (Props/TieD.lean versionsBase_eq)",
            "model Model/Engine.lean hand-written at MIR level after ascent_mir.rs / ascent_codegen.rs; index lookups are filters "
            "(hash indices themselves: C19); tied by compiling generated programs with the real macros and diffing relation contents "
            "(with multiplicities) and scc_iters against the Lean driver, plus an independent naive least-model oracle (tools/vlib/eng.py)",
